@@ -36,6 +36,9 @@ def cmd_run(a):
         for k in ('paths', 'obligations', 'discharged'):
             g[k] += r[k]
     known = evidence.load_known()
+    import glob
+    for old in glob.glob(os.path.join(evidence.OUT, 'replays', prop, '*.json')):
+        os.unlink(old)          # replay files belong to the run that wrote them
     import importlib
     for g in groups:
         for t in g['tasks'][:1]:
